@@ -611,7 +611,7 @@ def flex_layout(context, box, bottom_space, skip_stack, containing_block, page_i
         box.content_box_x() if main == 'width'
         else box.content_box_y())
     justify_content = box.style['justify_content']
-    if 'normal' in justify_content:
+    if {'normal', 'stretch'} & set(justify_content):
         justify_content = ('flex-start',)
     if box.style['flex_direction'].endswith('-reverse'):
         if 'flex-start' in justify_content:
@@ -672,7 +672,10 @@ def flex_layout(context, box, bottom_space, skip_stack, containing_block, page_i
         if free_space < 0:
             # Fallback alignments when items overflow
             if 'space-between' in justify_content:
-                line_justify_content = ('flex-start',)
+                if box.style['flex_direction'].endswith('-reverse'):
+                    line_justify_content = ('flex-end',)
+                else:
+                    line_justify_content = ('flex-start',)
             elif {'space-around', 'space-evenly'} & set(justify_content):
                 line_justify_content = ('center',)
 
